@@ -98,6 +98,26 @@ Serialize(h) ==
 WriteBack(old, h) == LET s == Serialize(h) IN
   [o \in 1..HdrLen |-> IF h.ver <= 1 /\ o <= 16 THEN old[o] ELSE s[o]]
 
+\* ---- beyond the listed properties: Header.Score, ROMSizeBytes, RAMSizeBytes (header.go)
+Vec(h, n) == h.f[n]
+Score(h, addr) ==
+  IF Vec(h, "EmulatedVectors_RESET") < 32768 THEN 0
+  ELSE LET pts(c) == IF c THEN 1 ELSE 0
+           mapper == h.f["MapMode"] - (IF (h.f["MapMode"] \div 16) % 2 = 1 THEN 16 ELSE 0)
+           cs == h.f["CheckSum"]  ccs == h.f["ComplementCheckSum"]
+       IN pts(Vec(h, "NativeVectors_NMI") >= 32768) + pts(Vec(h, "NativeVectors_BRK") >= 32768)
+          + pts(Vec(h, "NativeVectors_IRQ") >= 32768) + pts(Vec(h, "NativeVectors_COP") >= 32768)
+          + pts(Vec(h, "NativeVectors_ABORT") >= 32768) + pts(Vec(h, "EmulatedVectors_NMI") >= 32768)
+          + pts(Vec(h, "EmulatedVectors_IRQBRK") >= 32768) + pts(Vec(h, "EmulatedVectors_COP") >= 32768)
+          + pts(Vec(h, "EmulatedVectors_ABORT") >= 32768)
+          + (IF cs + ccs = 65535 /\ cs # 0 /\ ccs # 0 THEN 8 ELSE 0)
+          + (IF h.f["OldMakerCode"] = 51 THEN 2 ELSE 0)
+          + pts(h.f["CartridgeType"] < 8) + pts(h.f["ROMSize"] < 16) + pts(h.f["RAMSize"] < 8) + pts(h.f["DestinationCode"] < 14)
+          + (IF addr = 32688 /\ mapper = 32 THEN 2 ELSE 0) + (IF addr = 65456 /\ mapper = 33 THEN 2 ELSE 0)
+          + (IF addr = 32688 /\ mapper = 34 THEN 2 ELSE 0) + (IF addr = 4259760 /\ mapper = 37 THEN 2 ELSE 0)
+\* 1024 << size as a uint32, given as <<low word, high word>>
+SizeBytes(sz) == IF sz >= 22 THEN <<0, 0>> ELSE IF sz >= 6 THEN <<0, 2 ^ (sz - 6)>> ELSE <<1024 * (2 ^ sz), 0>>
+
 LayoutPartitions == \A o \in 0..(HdrLen - 1) :
                       Cardinality({ i \in 1..Len(Layout) : Covers(Layout[i], o) }) = 1
 
